@@ -236,16 +236,16 @@ pub fn run(args: &Args, report: &Report) {
         }
     });
     if args.replay.is_none() {
-        report.require("c06.nontrivial_blocks", args.by_tier(300, 3_000));
-        report.require("c06.resubmissions_skipped", args.by_tier(400, 4_000));
-        report.require("c06.resubmission_skipped_collision_without_utxo_validation", args.by_tier(100, 1_000));
-        report.require("c06.resubmission_skipped_collision.same_block", args.by_tier(30, 300));
-        report.require("c06.resubmission_skipped_collision.next_block", args.by_tier(60, 600));
-        report.require("c06.resubmission_skipped_collision.many_blocks_later", args.by_tier(60, 600));
-        report.require("c06.validate_rejected.same_block_twice", args.by_tier(300, 3_000));
-        report.require("c06.validate_rejected.previous_block_tx", args.by_tier(200, 2_000));
-        report.require("c06.validate_rejected.previous_block_mint", args.by_tier(300, 3_000));
-        report.require("c06.validate_rejected_with_collision", args.by_tier(300, 3_000));
+        report.require("c06.nontrivial_blocks", args.by_tier(1800, 18000));
+        report.require("c06.resubmissions_skipped", args.by_tier(2900, 29000));
+        report.require("c06.resubmission_skipped_collision_without_utxo_validation", args.by_tier(790, 7900));
+        report.require("c06.resubmission_skipped_collision.same_block", args.by_tier(150, 1500));
+        report.require("c06.resubmission_skipped_collision.next_block", args.by_tier(1200, 12000));
+        report.require("c06.resubmission_skipped_collision.many_blocks_later", args.by_tier(690, 6900));
+        report.require("c06.validate_rejected.same_block_twice", args.by_tier(2900, 29000));
+        report.require("c06.validate_rejected.previous_block_tx", args.by_tier(2700, 27000));
+        report.require("c06.validate_rejected.previous_block_mint", args.by_tier(2700, 27000));
+        report.require("c06.validate_rejected_with_collision", args.by_tier(12000, 120000));
     }
     report.finish(
         args,
